@@ -433,6 +433,10 @@ def run_C07(ctx):
     # also when the builder was configured earlier, reused or cloned
     pl = []
     texts = [("hello world\nfoo bar\nx\n", "hello world\nfoo baz\ny\n"), ("abcabba", "cbabac")]
+    # several hundred unique items per side whose orders differ in the middle (inner runs of Patience see a deadline too)
+    u1 = [chr(0x100 + i) for i in range(300)]
+    u2 = u1[:100] + list(reversed(u1[100:200])) + u1[200:]
+    texts.append(("".join(u1), "".join(u2)))
     for _ in range(tiered(ctx, 2, 12)):
         a, b = gen.structured_pair(ctx.rng, 12)
         if a and b and a != b and a[0] != b[0] and a[-1] != b[-1]:
@@ -1663,6 +1667,15 @@ def run_C18(ctx):
             for cb in (b, b + 1, max(0, b - 1), b + 2):
                 lines.append("close word=%s cands=%s|%s n=5 cutoff=%d" % (gen.hx(word.encode()), gen.hx(cand.encode()), gen.hx(b"zz"), cb))
                 ctx.count("close:tiny-ratios")
+    # more than 100 characters with one character that occurs once on each side but far from its counterpart
+    for k in (40, 60, 150):
+        w = "X" + "ab" * k
+        for cand in ("ab" * k + "X", "ab" * k, "Xab" * (k // 2)):
+            tot = len(w) + len(cand)
+            b = f32_bits(2.0 * lcs_len_py(w, cand) / tot)
+            for cb in (b, b + 1, f32_bits(0.5)):
+                lines.append("close word=%s cands=%s|%s n=%d cutoff=%d" % (gen.hx(w.encode()), gen.hx(cand.encode()), gen.hx(b"ab"), ctx.rng.choice([1, 2]), cb))
+                ctx.count("close:long-words-misplaced-unique-char")
     lines.append("close word=%s cands=%s n=3 cutoff=%d" % (gen.hx(b"appel"), "|".join(gen.hx(x) for x in [b"ape", b"apple", b"peach", b"puppy"]), f32_bits(0.6)))
     # the witness of known finding F9 (two distinct ratios below 2^-9 with the same u32 key)
     c1 = b"a" + b"b" * 131071
